@@ -867,3 +867,32 @@ func init() {
 		c.Dom("non-empty", f, stores, "hex[0] = firstByte", GCond("len(hex) != 0", f, Cmp(Len(hex), token.NEQ, ConstInt(0))), GCond("len(hex) > 0", f, Cmp(Len(hex), token.GTR, ConstInt(0))))
 	})
 }
+
+func init() {
+	extendProp("C50", "The generic feed sends a typed value: in FeedOf.Send the reflect.Value handed to the send cases is built from a pointer to the parameter (reflect.ValueOf(&value).Elem()), never from the parameter converted to an interface — for an interface element type a nil value would be the zero reflect.Value, which panics in TrySend while the send token is held.", nil, func(c *Ctx) {
+		c.Rule("CANON/C50.typedvalue")
+		f := c.Fn("event", "(*FeedOf).Send")
+		if f == nil {
+			return
+		}
+		c.Funcs[f] = true
+		n := 0
+		for _, s := range c.Calls(f, "reflect.ValueOf") {
+			call := s.Instr.(*ssa.Call)
+			arg := call.Call.Args[0]
+			var x ssa.Value
+			switch a := arg.(type) {
+			case *ssa.MakeInterface:
+				x = a.X
+			case *ssa.ChangeInterface:
+				x = a.X
+			default:
+				x = arg
+			}
+			n++
+			_, isPtr := x.Type().Underlying().(*types.Pointer)
+			c.Check(isPtr, "through-pointer", s.Pos(), "reflect.ValueOf receives a pointer (…Elem() keeps the static type)", "reflect.ValueOf is applied to the element value itself: a nil value of an interface element type becomes the zero reflect.Value and Send panics with the send token taken, blocking every later Send and Unsubscribe")
+		}
+		c.Expect(1, n, "reflect.ValueOf calls in FeedOf.Send")
+	})
+}
